@@ -84,11 +84,11 @@ def brown(x):
 
     """
 
-    # Calculating first term squares
-    term1 = x[:-1] ** 2
+    # Calculating first term squares (as floats, as integer powers overflow silently)
+    term1 = np.asarray(x[:-1], dtype=float) ** 2
 
     # Calculating second term squares
-    term2 = x[1:] ** 2
+    term2 = np.asarray(x[1:], dtype=float) ** 2
 
     # Declaring Brown's function
     y = np.sum(term1 ** (term2 + 1) + term2 ** (term1 + 1))
